@@ -55,6 +55,25 @@ type c06Case struct {
 	MtName    string  `json:"mtName"`    // json / yaml: another media type name the library registers the decoder under
 	EncCT     bool    `json:"encCT"`     // multipart: the media type declares encoding.<property>.contentType for every property
 	Entry     string  `json:"entry"`     // "request": ValidateRequest instead of ValidateRequestBody
+	// enc "obj": the Encoding Object of every array property gives style / explode, each possibly absent ("none"); the wire form
+	// (one field per item, or one field joined by wireDelim) is computed by the specification
+	EncStyle    string `json:"encStyle"`
+	EncExplode  string `json:"encExplode"`
+	WireExplode bool   `json:"wireExplode"`
+	WireDelim   string `json:"wireDelim"`
+	// malformed kind "tail": a complete JSON value (lead) + sep + tail
+	Lead string `json:"lead"`
+	Sep  string `json:"sep"`
+	Tail string `json:"tail"`
+}
+
+// c06Tail: the body of a "tail" case.
+func c06Tail(tc *c06Case) []byte {
+	lead := `{"n":1}`
+	if tc.Lead == "arr" {
+		lead = `[1,2]`
+	}
+	return []byte(lead + tc.Sep + tc.Tail)
 }
 
 // c06JSONEscaped renders a tagged value as JSON with every character of every string and key written as a \uXXXX escape.
@@ -235,7 +254,11 @@ func c06Run(c *Case) []any {
 	required := tc.Required
 	intS := map[string]any{"type": "integer"}
 	if tc.Part == "malformed" {
-		ct, body = c06Malformed(tc.Family, tc.Kind)
+		if tc.Kind == "tail" {
+			ct, body = "application/json", c06Tail(&tc)
+		} else {
+			ct, body = c06Malformed(tc.Family, tc.Kind)
+		}
 		content[strings.SplitN(ct, ";", 2)[0]] = map[string]any{"schema": absSchemaToOpenAPI(tc.Sch)}
 		required = true
 	} else if tc.Part == "select" {
@@ -350,6 +373,15 @@ func c06Run(c *Case) []any {
 			} else if delim != "" {
 				e := map[string]any{"style": tc.Enc + "Delimited", "explode": false}
 				mt["encoding"] = map[string]any{"l": e, "ls": e}
+			} else if tc.Enc == "obj" {
+				e := map[string]any{}
+				if tc.EncStyle != "none" {
+					e["style"] = tc.EncStyle
+				}
+				if tc.EncExplode != "none" {
+					e["explode"] = tc.EncExplode == "true"
+				}
+				mt["encoding"] = map[string]any{"l": e, "lb": e, "lf": e, "ls": e}
 			} else if tc.Enc == "deep" {
 				mt["encoding"] = map[string]any{"o": map[string]any{"style": "deepObject", "explode": true}}
 			}
@@ -367,7 +399,9 @@ func c06Run(c *Case) []any {
 					}
 					continue
 				}
-				if tc.Enc == "lNonExplode" && k == "l" {
+				if tc.Enc == "obj" && !tc.WireExplode {
+					q.Set(k, strings.Join(vs[i], tc.WireDelim))
+				} else if tc.Enc == "lNonExplode" && k == "l" {
 					q.Set(k, strings.Join(vs[i], ","))
 				} else if delim != "" && (k == "l" || k == "ls") {
 					q.Set(k, strings.Join(vs[i], delim))
